@@ -218,7 +218,7 @@ class PDFXRefFallback(PDFXRef):
     def __repr__(self) -> str:
         return "<PDFXRefFallback: offsets=%r>" % (self.offsets.keys())
 
-    PDFOBJ_CUE = re.compile(r"^(\d+)\s+(\d+)\s+obj\b")
+    PDFOBJ_CUE = re.compile(r"^(\d{1,10})\s+(\d{1,10})\s+obj\b")
 
     def load(self, parser: PDFParser) -> None:
         parser.seek(0)
